@@ -124,6 +124,9 @@ func init() {
 					base.Host = "10.9.8.7:4180"
 				}
 				base.TLS = vpS(in, "conn") == "tls"
+				if vpS(in, "form") == "absolute" {
+					base.Target = "http://" + vpHost + base.Target // the absolute form of the request target
+				}
 				if vpS(in, "peer") == "unix" {
 					base.RemoteAddr = "@"
 				}
